@@ -36,13 +36,13 @@ OPTS = ["none", "default", "default", "multi", "always-never", "simple", "fuse-a
 FORCING = {"always-never", "fuse-all", "fuse-only"}
 
 
-def case_strategy(opts=None, max_ops=5):
+def case_strategy(opts=None, max_ops=5, min_ops=1):
     from hypothesis import strategies as st
 
     @st.composite
     def cases(draw):
-        prog = draw(P.programs(draw(st.sampled_from(["dag", "fusion-rich", "storage-rich"])), max_ops=max_ops, min_ops=1, opts=opts))
-        name = draw(st.sampled_from(OPTS))
+        prog = draw(P.programs(draw(st.sampled_from(["dag", "fusion-rich", "storage-rich"])), max_ops=max_ops, min_ops=min_ops, opts=opts))
+        name = draw(st.sampled_from((opts or {}).get("optimizers") or OPTS))
         o = {"name": name}
         if name == "multi":
             o["msa"] = draw(st.integers(1, 8))
@@ -196,11 +196,12 @@ def check_case(case) -> Outcome:
                     res = cubed.compute(*outs2, executor=ex, callbacks=[cb], **kw2)
                     got = np.asarray(res[-1])
                 elif case["entry"] == "method":
-                    got = np.asarray(arrs2[out_id].compute(executor=ex, callbacks=[cb], **kw2))
+                    # the plan of this one array (it may fuse differently from the plan of all outputs together): judge the call by it
                     fp2 = arrs2[out_id].plan(**kw2)
                     proj = _projected(fp2.dag)
                     Pmax = max(proj) if proj else 0
                     should_refuse = Pmax > allowed
+                    got = np.asarray(arrs2[out_id].compute(executor=ex, callbacks=[cb], **kw2))
                 elif case["entry"] == "store":
                     # plan on a second build of the same program (a store call changes the array it is given, so the
                     # planning call and the judged call must not share arrays)
@@ -271,8 +272,10 @@ def check_case(case) -> Outcome:
 
 def shards(tier):
     if tier == "quick":
-        return [{"kind": "program", "name": f"s{i}", "n": 90, "rotate": 29 + i * 59} for i in range(7)]
-    return [{"kind": "program", "name": f"s{i}", "n": 1500, "rotate": 29 + i * 59} for i in range(16)]
+        return [{"kind": "program", "name": f"s{i}", "n": 90, "rotate": 29 + i * 59} for i in range(7)] + [
+            {"kind": "program", "name": f"forced{i}", "n": 90, "rotate": 13 + i * 41, "forced": True, "min_ops": 3} for i in range(2)]
+    return [{"kind": "program", "name": f"s{i}", "n": 1500, "rotate": 29 + i * 59} for i in range(16)] + [
+        {"kind": "program", "name": f"forced{i}", "n": 1500, "rotate": 13 + i * 41, "forced": True, "min_ops": 3} for i in range(4)]
 
 
 def run_shard(spec, seed, tier) -> Acc:
@@ -280,7 +283,15 @@ def run_shard(spec, seed, tier) -> Acc:
     if spec["kind"] == "__corpus__":
         return core.corpus_shard(sys.modules[__name__], acc)
     is_known, _ = core.known_matcher(ID)
-    core.hyp_run(case_strategy({"rotate": spec.get("rotate", 0), "allow_zero": False}), check_case, seed=seed, max_examples=spec["n"], acc=acc,
+    opts = {"rotate": spec.get("rotate", 0), "allow_zero": False}
+    if spec.get("forced"):
+        # trees of binary elementwise operations under optimizer settings that fuse regardless of the memory guard: the fused
+        # operation's projection (peak over the predecessors kept alive) exceeds every original operation's
+        from vp.ir import OPS
+
+        opts["only_ops"] = sorted(n for n, o in OPS.items() if "binary" in o.tags and "elementwise" in o.tags) + ["pick", "negative"]
+        opts["optimizers"] = ["fuse-all", "fuse-all", "fuse-only", "always-never"]
+    core.hyp_run(case_strategy(opts, min_ops=spec.get("min_ops", 1)), check_case, seed=seed, max_examples=spec["n"], acc=acc,
                  budget_s=420 if tier == "quick" else 3000, shrink=(tier == "thorough"), is_known=is_known)
     return acc
 
